@@ -8,7 +8,6 @@ THEOREMS = [
     "GoaktVerif.C08.backoff_eq_spec",
     "GoaktVerif.C08.specDelayExec_eq",
     "GoaktVerif.C08.backoff_law",
-    "GoaktVerif.C08.backoff_corner",
     "GoaktVerif.C08.delay_bounds",
     "GoaktVerif.C08.delay_mono",
     "GoaktVerif.C08.delay_disabled",
@@ -16,15 +15,15 @@ THEOREMS = [
     "GoaktVerif.C08.recordFault_spec",
     "GoaktVerif.C08.recordFault_no_window",
     "GoaktVerif.C08.recordFaults_within",
-    "GoaktVerif.C08.C08_refuted",
-    "GoaktVerif.C08.C08_partial",
+    "GoaktVerif.C08.C08_holds",
+    "GoaktVerif.C08.C08_consequences",
 ]
 GO2LEAN = {"targets": [
     {"kind": "func", "file": "actor/pid.go", "func": "backoffDelay", "lean": "backoffDelay"},
 ]}
 INPKG = ["actor/zz_verif_c08.go"]
 MANIFEST = {
-    "level_text": "Kernel-checked theorems over ALL int64 triples (faults, initial, max): the Int64 definition of backoffDelay regenerated from actor/pid.go on every run equals the Int model (backoff_refines), which equals min(initial*2^(n-1), max) everywhere except the single corner faults=63, initial=1ns, max>2^62ns (backoff_law; the corner is C08_refuted / finding C08-F1, where the code returns max); 0 <= delay <= max, monotone in the fault count and zero when disabled hold with no exception (delay_bounds, delay_mono, delay_disabled); WithExponentialBackoff only ever stores (0,0) or 0 < initial <= max (configure_configured); recordFault follows the window rule for every clock reading and every history (recordFault_spec, recordFaults_within).",
+    "level_text": "Kernel-checked theorems over ALL int64 triples (faults, initial, max): the Int64 definition of backoffDelay regenerated from actor/pid.go on every run equals the Int model (backoff_refines), which equals min(initial*2^(n-1), max) on every triple (backoff_law, C08_holds); 0 <= delay <= max, monotone in the fault count and zero when disabled hold with no exception (delay_bounds, delay_mono, delay_disabled); WithExponentialBackoff only ever stores (0,0) or 0 < initial <= max (configure_configured); recordFault follows the window rule for every clock reading and every history (recordFault_spec, recordFaults_within).",
     "level_note": "backoffDelay is tied for all inputs by go2lean regeneration plus a differential through an in-package accessor. recordFault and WithExponentialBackoff are hand models tied by the differential only; recordFault reads the wall clock, so the harness presets lastFaultAtNano relative to the clock with wide margins: the exact boundary now-last == window is NOT exercised on the real code (a normalised-source comparison of recordFault's body flags any edit of it instead). Counter/int64 wrap of consecutiveFaults (2^63 faults) and a negative wall clock are outside the model. handleRestartDirective's choice of window and the restart budget are not part of this check.",
     "technique": "Lean 4 proof over a model regenerated from the Go source by a translator (all int64 inputs), plus model/implementation differential and spec oracle",
 }
